@@ -32,6 +32,14 @@
  *          deserialize and dup give the same address (independent field
  *          comparison and sock_addr_cmp == 0), and sock_addr_cmp tells four
  *          edited copies apart.
+ *  addrptxt  port spellings on bracketed literals (IPv4 {0,1,9,10,99,100,127,255}^4;
+ *          IPv6 {0,1,abcd,ffff}^4 in groups 0,1,6,7, groups 2..5 zero, full /
+ *          upper case / every maximal zero run as "::"): ports with leading
+ *          zeros {010 0100 0080 00443 065535 01 0000000000000000000009999}
+ *          resolve to the DECIMAL value (all obligations above); port texts
+ *          that are not decimal numerals {0x50 0X1f 1e3 "80 " "" 0x 080x 0b11}
+ *          must not resolve.  ("+80", " 80" are accepted by the library as
+ *          port 80 and are not asserted either way.)
  *  json    objects of 0..3 members rendered from (name, value) index vectors
  *          (hx_common.h: 9 names incl. \" \\ \n \/ \b\f\r\t and a \u name,
  *          13 values incl. nested containers and strings that look like
@@ -83,7 +91,7 @@ static int deep;		/* --deep given: bounds beyond thorough */
 
 /* Per-process counters, flushed to the shared ones at the end of each unit. */
 static uint64_t n_eval, n_b64acc_ok, n_b64acc_rej, n_hex_ok, n_hex_rej, n_json_found, n_json_end;
-static uint64_t n_addr4, n_addr6, n_addru, n_addr_gai;
+static uint64_t n_addr4, n_addr6, n_addru, n_addr_gai, n_addr_pzero, n_addr_pbad;
 
 static void
 flush_counters(void)
@@ -95,6 +103,8 @@ flush_counters(void)
 	vf_count("json.found", n_json_found); vf_count("json.notfound", n_json_end);
 	vf_count("addr.ipv4", n_addr4); vf_count("addr.ipv6", n_addr6); vf_count("addr.unix", n_addru);
 	vf_count("addr.via_getaddrinfo_stub", n_addr_gai);
+	vf_count("addr.port_leading_zeros", n_addr_pzero); vf_count("addr.port_not_decimal_rejected_expected", n_addr_pbad);
+	n_addr_pzero = n_addr_pbad = 0;
 	n_eval = n_b64acc_ok = n_b64acc_rej = n_hex_ok = n_hex_rej = n_json_found = n_json_end = 0;
 	n_addr4 = n_addr6 = n_addru = n_addr_gai = 0;
 }
@@ -721,7 +731,7 @@ addr_v4(int a, int b, int c, int d, int port, int form, const char * desc)
  * 6 every group zero-padded to four digits, 7 the last two groups as a dotted quad.  Returns 0 if no such form.
  */
 static int
-v6_text(const unsigned * g, int form, int port, char * out, size_t n)
+v6_text_s(const unsigned * g, int form, const char * ports, char * out, size_t n)
 {
 	char ip[64];
 	size_t o = 0;
@@ -758,8 +768,17 @@ v6_text(const unsigned * g, int form, int port, char * out, size_t n)
 		if (i < 7)
 			o += (size_t)snprintf(ip + o, sizeof(ip) - o, ":");
 	}
-	snprintf(out, n, "[%s]:%d", ip, port);
+	snprintf(out, n, "[%s]:%s", ip, ports);
 	return (1);
+}
+
+static int
+v6_text(const unsigned * g, int form, int port, char * out, size_t n)
+{
+	char ports[16];
+
+	snprintf(ports, sizeof(ports), "%d", port);
+	return (v6_text_s(g, form, ports, out, n));
 }
 
 static void
@@ -811,6 +830,90 @@ addr_unix(int n, int pat, const char * desc)
 	n_addru++;
 }
 
+/*
+ * Port spellings (section addrptxt).  A port is a decimal numeral: written with
+ * leading zeros it denotes the same decimal value (never an octal one); a text
+ * that is not a string of decimal digits denotes no port, so the bracketed
+ * literal carrying it denotes no address and must not resolve.  value < 0:
+ * must not resolve.  The values are known by construction (no parser here).
+ * Left out because the unchanged library accepts them and the property does
+ * not say that they denote nothing: "+80" and " 80" (strtoimax's optional sign
+ * and leading white space; both resolve to port 80).
+ */
+static const struct { const char * text; int value; } PORTTXT[] = {
+	{ "010", 10 }, { "0100", 100 }, { "0080", 80 }, { "00443", 443 }, { "065535", 65535 }, { "01", 1 }, { "0000000000000000000009999", 9999 },
+	{ "0x50", -1 }, { "0X1f", -1 }, { "1e3", -1 }, { "80 ", -1 }, { "", -1 }, { "0x", -1 }, { "080x", -1 }, { "0b11", -1 },
+};
+#define NPORTTXT (int)(sizeof(PORTTXT) / sizeof(PORTTXT[0]))
+
+/* desc "p4 a b c d|PORT" (bracketed IPv4) or "p6 g0 .. g7 form|PORT" (bracketed IPv6, form as in v6_text); PORT verbatim. */
+static void
+addr_porttext(int fam, const int * o, const unsigned * g, int form, const char * ports, const char * desc)
+{
+	struct sockaddr_in sin;
+	struct sockaddr_in6 sin6;
+	char text[128];
+	uint8_t * pb;
+	unsigned long g0 = hx_gai_calls;
+	int i, value = -2;
+
+	for (i = 0; i < NPORTTXT; i++)
+		if (strcmp(PORTTXT[i].text, ports) == 0)
+			value = PORTTXT[i].value;
+	if (value == -2)
+		vf_engine_error("addr: port text \"%s\" is not in the table", ports);
+	if (fam == AF_INET)
+		snprintf(text, sizeof(text), "[%d.%d.%d.%d]:%s", o[0], o[1], o[2], o[3], ports);
+	else if (!v6_text_s(g, form, ports, text, sizeof(text)))
+		return;
+	hx_case("addr", desc, strlen(desc));
+	if (value < 0) {
+		char * blk = xb_copy(text, strlen(text) + 1);
+		struct sock_addr ** sas = sock_resolve(blk);
+
+		free(blk);
+		n_eval++;
+		n_addr_pbad++;
+		if (sas != NULL) {
+			char d1[400];
+
+			if (sas[0] != NULL)
+				sa_describe(d1, sizeof(d1), sas[0]);
+			else
+				snprintf(d1, sizeof(d1), "an empty list");
+			hx_viol("C17:addr:accepts-nondecimal-port", "sock_resolve(\"%s\") = %s, but \"%s\" is not a decimal port number: the string denotes no address", text, d1, ports);
+			sock_addr_freelist(sas);
+		} else
+			NOTE("addr: \"%s\" does not resolve (\"%s\" is not a decimal port number)", text, ports);
+	} else if (fam == AF_INET) {
+		memset(&sin, 0, sizeof(sin));
+		sin.sin_family = AF_INET;
+		pb = (uint8_t *)&sin.sin_port;
+		pb[0] = (uint8_t)(value / 256); pb[1] = (uint8_t)(value % 256);
+		pb = (uint8_t *)&sin.sin_addr;
+		for (i = 0; i < 4; i++)
+			pb[i] = (uint8_t)o[i];
+		addr_obligations(text, AF_INET, &sin, sizeof(sin));
+		n_addr4++;
+		n_addr_pzero++;
+	} else {
+		memset(&sin6, 0, sizeof(sin6));
+		sin6.sin6_family = AF_INET6;
+		pb = (uint8_t *)&sin6.sin6_port;
+		pb[0] = (uint8_t)(value / 256); pb[1] = (uint8_t)(value % 256);
+		pb = (uint8_t *)&sin6.sin6_addr;
+		for (i = 0; i < 8; i++) {
+			pb[2 * i] = (uint8_t)(g[i] / 256);
+			pb[2 * i + 1] = (uint8_t)(g[i] % 256);
+		}
+		addr_obligations(text, AF_INET6, &sin6, sizeof(sin6));
+		n_addr6++;
+		n_addr_pzero++;
+	}
+	if (hx_gai_calls != g0)
+		hx_viol("C17:addr:resolver-reached", "bracketed literal \"%s\" was handed to getaddrinfo", text);
+}
+
 static void
 case_addr(const uint8_t * desc, size_t len)
 {
@@ -822,7 +925,19 @@ case_addr(const uint8_t * desc, size_t len)
 		vf_engine_error("addr: descriptor too long");
 	memcpy(b, desc, len);
 	b[len] = '\0';
-	if (sscanf(b, "4 %d %d %d %d %d %d", &a, &bb, &c, &d, &port, &form) == 6)
+	if (b[0] == 'p') {
+		char * bar = strchr(b, '|');
+		int o[4];
+
+		if (bar == NULL)
+			vf_engine_error("addr: bad descriptor %s", b);
+		if (sscanf(b, "p4 %d %d %d %d|", &o[0], &o[1], &o[2], &o[3]) == 4)
+			addr_porttext(AF_INET, o, NULL, 0, bar + 1, b);
+		else if (sscanf(b, "p6 %x %x %x %x %x %x %x %x %d|", &g[0], &g[1], &g[2], &g[3], &g[4], &g[5], &g[6], &g[7], &form) == 9)
+			addr_porttext(AF_INET6, NULL, g, form, bar + 1, b);
+		else
+			vf_engine_error("addr: bad descriptor %s", b);
+	} else if (sscanf(b, "4 %d %d %d %d %d %d", &a, &bb, &c, &d, &port, &form) == 6)
 		addr_v4(a, bb, c, d, port, form, b);
 	else if (sscanf(b, "6 %x %x %x %x %x %x %x %x %d %d", &g[0], &g[1], &g[2], &g[3], &g[4], &g[5], &g[6], &g[7], &port, &form) == 10)
 		addr_v6(g, port, form, b);
@@ -1112,6 +1227,41 @@ unit_addru(uint64_t u)
 	}
 }
 
+/*
+ * addrptxt: every port spelling of PORTTXT on bracketed literals.  units 0..63: IPv4, first two octets (as addr4) x 8 x 8;
+ * unit 64: IPv6 {0,1,abcd,ffff}^4 in groups 0,1,6,7 with groups 2..5 zero, x forms 0..5 (full, upper case, each maximal zero run as "::").
+ */
+static void
+unit_addrptxt(uint64_t u)
+{
+	char desc[128];
+	unsigned g[8];
+	int o[4], ci, di, k, i, form, t;
+
+	if (u < 64) {
+		o[0] = V4OCT[u / 8]; o[1] = V4OCT[u % 8];
+		for (ci = 0; ci < 8; ci++)
+			for (di = 0; di < 8; di++)
+				for (t = 0; t < NPORTTXT; t++) {
+					o[2] = V4OCT[ci]; o[3] = V4OCT[di];
+					snprintf(desc, sizeof(desc), "p4 %d %d %d %d|%s", o[0], o[1], o[2], o[3], PORTTXT[t].text);
+					addr_porttext(AF_INET, o, NULL, 0, PORTTXT[t].text, desc);
+				}
+		return;
+	}
+	memset(g, 0, sizeof(g));
+	for (k = 0; k < 256; k++) {
+		for (i = 0; i < 4; i++)
+			g[i < 2 ? i : 4 + i] = V6GRP[(k >> (2 * i)) & 3];
+		for (form = 0; form < 6; form++)
+			for (t = 0; t < NPORTTXT; t++) {
+				snprintf(desc, sizeof(desc), "p6 %x %x %x %x %x %x %x %x %d|%s", g[0], g[1], g[2], g[3], g[4], g[5], g[6], g[7], form, PORTTXT[t].text);
+				addr_porttext(AF_INET6, NULL, g, form, PORTTXT[t].text, desc);
+			}
+	}
+	vf_sample("addr: \"[127.0.0.1]:010\" -> port 10 (decimal with leading zero, not octal 8); \"[::1]:0080\" -> port 80; \"[1.9.0.1]:0x50\", \":1e3\", \":80 \", \":\" do not resolve");
+}
+
 /* unit f < JNMEMB: objects of 2..3 members whose first member is f; unit JNMEMB: 0 and 1 member */
 static void
 json_keys_ws(int m, const int * mem)
@@ -1358,6 +1508,7 @@ static struct section SEC[] = {
 	{ "hexrt", 36, unit_hexrt },
 	{ "hex2", 16, unit_hex2 },
 	{ "addru", 2, unit_addru },
+	{ "addrptxt", 65, unit_addrptxt },
 	/* --deep: unit counts are set in main() */
 	{ "b64tail", 0, unit_b64tail },
 	{ "addr6deep", 0, unit_addr6_deep },
@@ -1446,6 +1597,8 @@ main(int argc, char ** argv)
 	vf_info("bounds", "b64: all byte strings <= 3 bytes + {00,01,7f,80,ff,'A'}^4..%d; acceptance over {A B / + = * NUL a}^0..%d; "
 	    "hex: all 2-char strings, all bytes, {00,01,7f,80,ff,'A'}^2..6, {0 9 a F g NUL}^0..%d; endian: all 16-bit, bytes {00,01,80,ff}^4/^8 + single bits, offsets 0..7; "
 	    "addr: IPv4 {0,1,9,10,99,100,127,255}^4 x ports {1,80,9999,65535} x {bracketed, host form}, IPv6 {0,1,abcd,ffff}^8 x {full, upper, each maximal zero run as ::} x ports (%s), unix paths 1..107 x 2 patterns; "
+	    "port spellings on bracketed literals (IPv4 {0,1,9,10,99,100,127,255}^4, IPv6 {0,1,abcd,ffff}^4 in groups 0,1,6,7 x {full, upper, each zero run as ::}): "
+	    "leading zeros {010,0100,0080,00443,065535,01,0000000000000000000009999} denote the decimal value, {0x50,0X1f,1e3,'80 ','',0x,080x,0b11} must not resolve; "
 	    "json: objects of 0..%d members from %d names x %d values, whitespace none/all gaps, %d keys",
 	    b64_maxlen, acc_maxlen, hex_maxlen, vf_tier ? "all four for every form" : "all four for the full form, one rotating for the others", json_maxm, NJN, NJV, NJK);
 	if (deep)
@@ -1467,7 +1620,8 @@ main(int argc, char ** argv)
 			if (vf_getcount("b64.accepted") == 0 || vf_getcount("b64.rejected") == 0 || vf_getcount("hex.accepted") == 0 ||
 			    vf_getcount("hex.rejected") == 0 || vf_getcount("json.found") == 0 || vf_getcount("json.notfound") == 0 ||
 			    vf_getcount("addr.ipv4") == 0 || vf_getcount("addr.ipv6") == 0 || vf_getcount("addr.unix") == 0 ||
-			    vf_getcount("addr.via_getaddrinfo_stub") + vf_getcount("addr.host_form_resolved_without_getaddrinfo") == 0)
+			    vf_getcount("addr.via_getaddrinfo_stub") + vf_getcount("addr.host_form_resolved_without_getaddrinfo") == 0 ||
+			    vf_getcount("addr.port_leading_zeros") == 0 || vf_getcount("addr.port_not_decimal_rejected_expected") == 0)
 				vf_engine_error("vacuous: an accept/reject/found/not-found class was never reached");
 		}
 		vf_setmax("codec.exhaustive", 1);
